@@ -4,6 +4,7 @@ from collections import Counter
 from .. import hooks
 from ..gen import canon, mk_event, rand_grid, rand_intervals, rand_nonoverlapping
 from ..model import allen, closed_union, measure
+from . import _tx
 from ._tx import exc_viol, is_event_list, iv, snap, tmod, unmodified
 
 ID = "C09"
@@ -114,6 +115,7 @@ def monitors():
 
 
 def setup(ctx):
+    import aw_query.functions  # noqa: F401 - its aliases of the transforms must exist before they are patched
     for m, n, pre, post in monitors():
         MON[n] = hooks.Monitor(m, n, pre, post).install()
 
@@ -166,6 +168,8 @@ def _sig(fn, a, b):
 
 
 def run_case(case, ctx):
+    if case.get("kind") == "query":
+        return _tx.run_query_case(case, ctx, MON)
     a, b = [mk_event(s) for s in case["a"]], [mk_event(s) for s in case["b"]]
     if case["fn"] == "intersect":
         sig = _sig("I", a, b)
@@ -179,3 +183,13 @@ def run_case(case, ctx):
     if not dom:
         ctx.count("generator_out_of_domain")
     return viols, dict(sig=sig, nontrivial=nontriv and dom)
+
+
+def worker(ctx):
+    """direct driver + the same monitors under generated query programs (+ the repository's tests, thorough tier)"""
+    import sys
+    from ..worker import default_worker
+    _tx.query_workload(ctx, MON, 400 if ctx.tier == "quick" else 6000, ID)
+    if ctx.tier == "thorough" and ctx.widx == 0:
+        _tx.pytest_workload(ctx, ID)
+    default_worker(sys.modules[__name__], ctx)
